@@ -277,36 +277,28 @@ impl Range {
 
             let is_link = boxed_is_link.unwrap();
             if is_link {
-                let boxed_points_to = FileExt::symlink_points_to(&static_filepath);
-                if boxed_points_to.is_err() {
+                // the link is followed by the operating system (as `metadata` above has already done), not by editing the text of
+                // the requested path: the directory the link is stored in may itself be reached through a link, or through `//` and
+                // `/./` segments, and a `..` in the link's target is relative to that real directory
+                let boxed_real_path = std::fs::canonicalize(&static_filepath);
+                if boxed_real_path.is_err() {
                     let error = Error {
                         status_code_reason_phrase: STATUS_CODE_REASON_PHRASE.n500_internal_server_error,
-                        message: boxed_points_to.err().unwrap()
+                        message: boxed_real_path.err().unwrap().to_string()
                     };
                     eprintln!("{}", &error.message);
                     return Err(error);
                 }
-
-                let points_to = boxed_points_to.unwrap();
-                let reversed_link = &static_filepath.chars().rev().collect::<String>();
-
-                let mut symlink_directory = SYMBOL.empty_string.to_string();
-                let boxed_split = reversed_link.split_once(&FileExt::get_path_separator());
-                if boxed_split.is_some() {
-                    let (_filename, path) = boxed_split.unwrap();
-                    symlink_directory = path.chars().rev().collect::<String>();
-                }
-
-                let boxed_resolved_link = FileExt::resolve_symlink_path(&symlink_directory, &points_to);
-                if boxed_resolved_link.is_err() {
+                let boxed_path_as_text = boxed_real_path.unwrap().into_os_string().into_string();
+                if boxed_path_as_text.is_err() {
                     let error = Error {
                         status_code_reason_phrase: STATUS_CODE_REASON_PHRASE.n500_internal_server_error,
-                        message: boxed_resolved_link.err().unwrap()
+                        message: "the file a link points to has a name that is not valid unicode".to_string()
                     };
                     eprintln!("{}", &error.message);
                     return Err(error);
                 }
-                path = boxed_resolved_link.unwrap();
+                path = boxed_path_as_text.unwrap();
             }
 
             let boxed_content_range_list = Range::parse_content_range(&path, md.len(), &range.value);
